@@ -113,23 +113,31 @@ func (sp *SpinLock) TryLock(lockKeys []*LockKey) ([]*LockKey, bool) {
 	succLocked := []*LockKey{}
 	for _, k := range lockKeys {
 		verifYield("trylock_key", k.key)
-		if lkType, occupiedByOthers := sp.m.LoadOrStore(k.key, k.lockType); occupiedByOthers {
-			if lkType == sharedLock && k.lockType == sharedLock { //读读共享
-				verifYield("trylock_shared_before_add", k.key)
-				sp.refCounter.Add(k.key)
-				succLocked = append(succLocked, k)
-				continue
-			} else {
-				return succLocked, false //读写冲突
-			}
+		if !sp.tryLockKey(k) {
+			return succLocked, false //读写冲突
 		}
-		if k.lockType == sharedLock {
-			verifYield("trylock_first_before_add", k.key)
-			sp.refCounter.Add(k.key)
-		}
-		succLocked = append(succLocked, k) //第一个抢到
+		succLocked = append(succLocked, k)
 	}
 	return succLocked, true
+}
+
+// tryLockKey locks one key. The entry of a shared key and its reference count change together under the
+// counter's mutex: otherwise a sharer between LoadOrStore and Add can be overtaken by the last holder's
+// Release and Delete and proceeds without an entry, so that a writer of the same key gets in.
+func (sp *SpinLock) tryLockKey(k *LockKey) bool {
+	if k.lockType == sharedLock {
+		sp.refCounter.mu.Lock()
+		defer sp.refCounter.mu.Unlock()
+	}
+	if lkType, occupiedByOthers := sp.m.LoadOrStore(k.key, k.lockType); occupiedByOthers {
+		if lkType != sharedLock || k.lockType != sharedLock {
+			return false
+		}
+	}
+	if k.lockType == sharedLock { //读读共享
+		sp.refCounter.ctMap[k.key]++
+	}
+	return true
 }
 
 //Unlock release the locks on some keys
@@ -142,10 +150,13 @@ func (sp *SpinLock) Unlock(lockKeys []*LockKey) {
 		if lkType == exclusiveLock {
 			sp.m.Delete(k)
 		} else if lkType == sharedLock { //共享锁要考虑引用计数
-			if sp.refCounter.Release(k) == 0 {
-				verifYield("unlock_shared_before_delete", k)
-				sp.m.Delete(lockKeys[i].key)
+			sp.refCounter.mu.Lock()
+			sp.refCounter.ctMap[k]--
+			if sp.refCounter.ctMap[k] <= 0 {
+				delete(sp.refCounter.ctMap, k)
+				sp.m.Delete(k)
 			}
+			sp.refCounter.mu.Unlock()
 		}
 	}
 }
